@@ -39,7 +39,7 @@ type qStats struct {
 }
 
 func readQStats() qStats {
-	return qStats{Active: query.GetActiveQueryCount(), Waiting: len(query.GetWaitingQueries()), Goroutines: runtime.NumGoroutine(),
+	return qStats{Active: query.GetActiveQueryCount(), Waiting: len(query.GetWaitingQueries()), Goroutines: countedGoroutines(),
 		MaxRunning: query.MAX_RUNNING_QUERIES}
 }
 
@@ -557,6 +557,24 @@ func runHTTPSearch(sr *scriptReq, text string) (int, string) {
 const scriptBaseTimeoutSecs = 20
 
 // goroutineSummary groups the current goroutines by their top siglens frame.
+// countedGoroutines is the number of goroutines without the idle workers of the harness' own in-memory
+// fasthttp server (its worker pool keeps workers for up to two idle periods of 10 s; they belong to the
+// harness, not to the server under test, and made the count-based net fire once on the unchanged tree).
+func countedGoroutines() int {
+	buf := make([]byte, 4<<20)
+	n := runtime.Stack(buf, true)
+	c := 0
+	for _, g := range strings.Split(string(buf[:n]), "\n\n") {
+		if strings.Contains(g, "fasthttp.(*workerPool).workerFunc") && !strings.Contains(g, "siglens/siglens/pkg/") {
+			continue
+		}
+		if strings.TrimSpace(g) != "" {
+			c++
+		}
+	}
+	return c
+}
+
 func goroutineSummary() string {
 	buf := make([]byte, 4<<20)
 	n := runtime.Stack(buf, true)
